@@ -56,6 +56,12 @@ theorem restore_capture_id (t : Node) (ht : TreeOk t) (o : Opts) (ho : OptsOk o)
       SameTree (restore o dstMode (linkify .tar (capture t))).1 (toFS t) :=
   restore_capture_same t ht o ho dstMode hdst
 
+/-- `TreeOk` holds of the sample tree (read-only directory, a hard-link group spanning two
+directories, an empty directory, a symlink). -/
+example : TreeOk sample :=
+  { isDir := ⟨_, _, rfl⟩, names := by decide, leaves := by decide, modes := by decide,
+    links := by decide, counts := by decide }
+
 /-- The hypotheses of `restore_capture_id` are satisfiable by a tree with a read-only
 directory, a hard-link group spanning two directories, an empty directory and a symlink;
 on it the model computes what the theorem says, as root and as a non-root user. -/
